@@ -149,6 +149,7 @@ type world struct {
 	dirBA          *Dir
 	keyed          bool
 	histAB, histBA []RawFrame
+	scratch        []byte
 }
 
 var bg = context.Background()
@@ -442,13 +443,27 @@ func (w *world) phase(st *Step) *PhaseObs {
 	for _, op := range st.SOps {
 		snap := snd.VerifSnapshot()
 		var err error
+		// callers may reuse their buffers: hand the stream a scratch slice and clobber it afterwards
+		scratch := func() []byte {
+			b := op.D.Bytes()
+			w.scratch = append(w.scratch[:0], b...)
+			return w.scratch[:len(b):len(b)]
+		}
+		clobber := func() {
+			for i := range w.scratch {
+				w.scratch[i] = 0xEE
+			}
+		}
 		switch op.Op {
 		case "send":
-			err = snd.SendMessage(bg, op.D.Bytes())
+			err = snd.SendMessage(bg, scratch())
+			clobber()
 		case "partial":
-			err = snd.SendPartialMessage(bg, op.D.Bytes())
+			err = snd.SendPartialMessage(bg, scratch())
+			clobber()
 		case "write":
-			err = snd.WriteMessage(bg, op.D.Bytes())
+			err = snd.WriteMessage(bg, scratch())
+			clobber()
 		case "end":
 			err = snd.EndMessage(bg)
 		case "start":
